@@ -308,7 +308,8 @@ impl BDF {
             let mut x_new = x + h_signed;
             if direction * (x_new - xend) > 0.0 {
                 let step_to_end = (xend - x).abs();
-                if step_to_end == 0.0 {
+                // nothing left, or x already is xend to rounding: the interval has been covered
+                if step_to_end == 0.0 || (x + 0.1 * step_to_end) == x {
                     status = Status::Success;
                     break;
                 }
